@@ -134,7 +134,7 @@ class LoopCtx(object):
         else:
             self.st.env[name] = Sym("num", term, isint)
 
-    def arr(self, name, kind, dtype, shape, miss, val, fresh=True):
+    def arr(self, name, kind, dtype, shape, miss, val, fresh=True, where=None):
         """`name` holds an array with exactly this abstract state at valid cells (payload unspecified)."""
         self.covered.add(name)
         eng, st = self.eng, self.st
@@ -151,10 +151,14 @@ class LoopCtx(object):
             eng.oblige(st, "%s/arr:%s:dtype" % (self.label, name), s.dtype == dtype, kind="invariant")
             eng.oblige(st, "%s/arr:%s:shape" % (self.label, name), s.shape == shape, kind="invariant")
             eng.oblige(st, "%s/arr:%s:miss" % (self.label, name), s.miss(c) == miss(c), kind="invariant")
-            eng.oblige(st, "%s/arr:%s:val" % (self.label, name), z3.Implies(z3.Not(miss(c)), s.val(c) == val(c)), kind="invariant")
+            guard = z3.Not(miss(c)) if where is None else where(c)
+            eng.oblige(st, "%s/arr:%s:val" % (self.label, name), z3.Implies(guard, s.val(c) == val(c)), kind="invariant")
         else:
             junk = eng.fresh_valfun("havoc")
-            new = ArrState(kind, dtype, shape, lambda c: z3.If(miss(c), junk(c), val(c)), miss)
+            if where is None:
+                new = ArrState(kind, dtype, shape, lambda c: z3.If(miss(c), junk(c), val(c)), miss)
+            else:
+                new = ArrState(kind, dtype, shape, lambda c: z3.If(where(c), val(c), junk(c)), miss)
             st.env[name] = st.alloc(new, fresh=fresh)
 
 
